@@ -49,6 +49,9 @@ func runC04(c *rt.C) {
 		maxS, extra := 3000, 500
 		if c.Tier == "thorough" {
 			maxS, extra = 200000, 50000
+			if len(slMicros[c.Index-6].Progs) >= 3 {
+				maxS, extra = 40000, 10000 // three actors on a guard allocator: keep the case well inside its watchdog
+			}
 		}
 		if c.Index%2 == 1 { // pageguard: two syscalls per block
 			maxS, extra = maxS/6, extra/6
